@@ -196,7 +196,7 @@ def run(prog, tier) -> Result:
                     allowed = {-1, 0, 1}
                     holds = lambda o_, s_: {"==": s_ == 0, "!=": s_ != 0, "<": s_ < 0, "<=": s_ <= 0, ">": s_ > 0, ">=": s_ >= 0}[o_]
                     flip = {"==": "==", "!=": "!=", "<": ">", "<=": ">=", ">": "<", ">=": "<="}
-                    k1, k2 = diff.key(), (RF.const(0) - diff).key()
+                    k1, k2 = st.canon_diff(diff).key(), st.canon_diff(RF.const(0) - diff).key()
                     for k, o_, r in st.cmp_facts:
                         if k == k2 and k2 != k1:
                             k, o_ = k1, flip[o_]
